@@ -357,6 +357,8 @@ var (
 	outPath   = flag.String("out", "", "summary JSON")
 	profile   = flag.String("profile", "load", "load (C09) | tsync (C10) | nnp (C11)")
 	replay    = flag.String("replay", "", "replay the histories of this file (one JSON per line)")
+	childDec  = flag.String("childdecide", "", "run as decision-probing child with this case (JSON)")
+	childVer  = flag.String("childverify", "", "run as verifier-probing child; the raw program (JSON) is read from stdin")
 )
 
 var lens = map[string]int{}
@@ -558,6 +560,24 @@ func main() {
 		child(h)
 		return
 	}
+	if *childVer != "" {
+		var raw []rawI
+		if err := json.NewDecoder(os.Stdin).Decode(&raw); err != nil {
+			fmt.Println("bad program")
+			os.Exit(2)
+		}
+		childVerify(raw)
+		return
+	}
+	if *childDec != "" {
+		var c DecideCase
+		if err := json.Unmarshal([]byte(*childDec), &c); err != nil {
+			fmt.Println("bad case")
+			os.Exit(2)
+		}
+		childDecide(c)
+		return
+	}
 	start := time.Now()
 	sum := &Summary{Stream: "kernel", Profile: *profile, Seed: *seed, Distribution: map[string]int{}, Samples: []string{}, Mismatches: []Mismatch{},
 		Rule: "seeded histories of LoadFilter/Supported calls (pinned threads, privileged/unprivileged, flags {0,tsync,log,tsync|log,unknown bits}, valid/invalid/oversize policies, unpinned loads with forced migration attempts, up to 63 extra threads in different states), each run in a fresh child process on the host kernel; a history is non-trivial if it contains at least one load that reaches the kernel; distinct by history JSON"}
@@ -571,6 +591,16 @@ func main() {
 		os.Exit(2)
 	}
 	defer model.Close()
+	if *profile == "verifier" {
+		verifierStream(sum, model, *n, *seed)
+		finish(sum, start)
+		return
+	}
+	if *profile == "decide" {
+		decideStream(sum, model, *n, *seed)
+		finish(sum, start)
+		return
+	}
 	var histories []History
 	if *replay != "" {
 		data, _ := os.ReadFile(*replay)
